@@ -5,18 +5,18 @@ package proto
 
 // ---- protocol-number comparisons (used by version-gated branches all over the proxy) -----------------------------
 //@ func (Protocol).GreaterEqual
-//@   props C27
+//@   props C27 C04 C26
 //@   modifies nothing
 //@   ensures result == (p >= then.Protocol)
 //@ func (Protocol).Greater
-//@   props C27
+//@   props C27 C04 C26
 //@   modifies nothing
 //@   ensures result == (p > then.Protocol)
 //@ func (Protocol).LowerEqual
-//@   props C27
+//@   props C27 C04 C26
 //@   modifies nothing
 //@   ensures result == (p <= then.Protocol)
 //@ func (Protocol).Lower
-//@   props C27
+//@   props C27 C04 C26
 //@   modifies nothing
 //@   ensures result == (p < then.Protocol)
